@@ -188,7 +188,9 @@ class Env:
     # -- running the code under test ----------------------------------------------------
     @contextlib.contextmanager
     def running(self, symbolic=True):
-        with warnings.catch_warnings():
+        import io
+
+        with warnings.catch_warnings(), contextlib.redirect_stdout(io.StringIO()):
             warnings.simplefilter("ignore")
             if self.mode == "sym" and symbolic:
                 with symbolic_numpy():
